@@ -18,12 +18,13 @@ VARIABLES i, bad, dropped, tags
 SeqToSet(q) == {q[k] : k \in 1..Len(q)}
 NoDup(q) == Cardinality(SeqToSet(q)) = Len(q)
 
+\* (the statement fixes the mask's two hex digits, not their case)
 JudgeMask(e) ==
   LET S == SeqToSet(e.days)
       accepted == e.days # <<>> /\ NoDup(e.days)
   IN IF accepted
      THEN [why |-> Clause(~e.raised, "C12:valid-days-rejected")
-                   \o (IF e.raised THEN <<>> ELSE Clause(e.out = MaskText(S), "C12:mask-text")),
+                   \o (IF e.raised THEN <<>> ELSE Clause(LowerSeq(e.out) = MaskText(S), "C12:mask-text")),
            tag |-> "mask-" \o e.form]
      ELSE [why |-> Clause(e.raised, "C12:empty-or-duplicate-days-must-raise"), tag |-> "mask-reject-" \o e.form]
 
